@@ -1,7 +1,12 @@
 """C11 - see DESIGN 7.11 / 7.12 (shared history enumerator in harness/history.py)."""
 ID = 'C11'
 LEVEL = 'other'
-TARGETS = ['selfies/bond_constraints.py::get_preset_constraints', 'selfies/bond_constraints.py::get_semantic_constraints', 'selfies/bond_constraints.py::set_semantic_constraints', 'selfies/bond_constraints.py::get_bonding_capacity']
+TARGETS = ['selfies/bond_constraints.py::get_preset_constraints',
+           'selfies/bond_constraints.py::get_semantic_constraints',
+           'selfies/bond_constraints.py::set_semantic_constraints',
+           'selfies/bond_constraints.py::get_bonding_capacity',
+           'selfies/grammar_rules.py::process_atom_symbol',
+           'selfies/grammar_rules.py::_process_atom_selfies_no_cache']
 EXPLANATION = (
     "BOUNDED stand-in (not counted as proved) plus every deductive clause listed in coverage.clauses: enumerated "
     "histories of public API calls (constraint updates valid and invalid, caller-side mutation of every object the "
